@@ -255,7 +255,7 @@ class DataLoggerSpec(Spec):
             "distinct = distinct scheduler log + operation trace")
     expected_probes = ("checked_raw", "checked_json", "checked_quicklogger", "checked_msg_header", "subdivided_files", "empty_sequence",
                        "single_message", "lock_contended", "runs_with_flush", "runs_with_3+_flushes", "writer_busy_seen",
-                       "ql_files_read", "second_recording", "dataset_replaced", "dataset_removed", "high_type_ids",
+                       "ql_files_read", "second_recording", "further_recording_same_folder", "dataset_replaced", "dataset_removed", "high_type_ids",
                        "timecode_headers", "user_type_in_quicklogger", "redundant_selection", "timecode_client_in_process")
     components = {"real": ["pyrtma.data_logger.data_collection (DataCollection incl. the writer loop)",
                            "pyrtma.data_logger.data_set", "data_formatter and the raw/json/quicklogger formatters",
